@@ -38,20 +38,45 @@ def run(ctx, rep):
     f6(ctx, rep)
 
 
+SETTERS = ('clone_from', 'push_str', 'insert_str', 'replace_range', 'clear', 'truncate', 'extend', 'push', 'insert', 'remove', 'retain', 'clone_into')
+
+
+def config_writes(oc, cfg):
+    """Write events on the configuration in (the inlined view of) a function: [(path text, value, guard, line)] —
+    assignments whose target is an access path of `cfg`, and in-place setters (`x.clone_from(v)` …) on such a path."""
+    out = []
+
+    def path_of(t):
+        t = vt.strip(t)
+        while isinstance(t, dict) and t.get('k') in ('deref', 'ref', 'paren'):
+            t = vt.strip(t.get('v'))
+        if isinstance(t, dict) and t.get('k') == 'atom' and t.get('root') == cfg and t.get('path'):
+            return '.'.join(t['path'])
+        return None
+    for a in oc['assigns']:
+        pth = path_of(a.get('target'))
+        if pth is None and a.get('text', '').replace(' ', '').startswith(cfg + '.') and not a.get('via'):
+            pth = a['text'].replace(' ', '')[len(cfg) + 1:]
+        if pth is not None:
+            out.append((pth, a.get('value'), a['guard'], a.get('line')))
+    for c in oc['calls']:
+        if c.get('f') in SETTERS and c.get('recv') is not None:
+            pth = path_of(c['recv'])
+            if pth is not None:
+                out.append((pth, (c.get('args') or [None])[0] if c['f'] in ('clone_from',) else {'k': 'call', 'f': c['f'], 'args': c.get('args', []), 'recv': c['recv']}, c['guard'], c.get('line')))
+    return out
+
+
 def f1(ctx, rep):
-    oc = ctx.fn('override_configuration', file='cli/src/main.rs')
+    oc = ctx.fnx('override_configuration', file='cli/src/main.rs')
     cfg = oc['params'][0]['name']
     opts = oc['params'][1]['name']
     seen = {}
-    for a in oc['assigns']:
-        text = a.get('text', '').replace(' ', '')
-        if not text.startswith(cfg + '.'):
-            continue
-        path = text[len(cfg) + 1:]
-        site = {'file': oc['file'], 'line': a.get('line')}
+    for path, value, guard, line in config_writes(oc, cfg):
+        site = {'file': oc['file'], 'line': line}
         if path == 'target_os':
             continue
-        frames = [fr for fr in a['guard'] if fr.get('k') in ('if', 'arm', 'for', 'while')]
+        frames = [fr for fr in guard if fr.get('k') in ('if', 'arm', 'for', 'while')]
         src_opt = None
         ok_guard = len(frames) == 1 and frames[0].get('k') == 'if' and not frames[0].get('neg') and isinstance(frames[0]['c'], dict) and frames[0]['c'].get('k') == 'iflet' and 'Some' in ''.join(frames[0]['c'].get('variants', []))
         if frames and isinstance(frames[-1].get('c'), dict) and frames[-1]['c'].get('k') == 'iflet':
@@ -59,7 +84,7 @@ def f1(ctx, rep):
             if isinstance(sc, dict) and sc.get('k') == 'atom' and sc.get('root') == opts and len(sc.get('path', [])) == 1:
                 src_opt = sc['path'][0]
         seen[path] = src_opt
-        val = vt.strip(a['value'])
+        val = vt.strip(value)
         from_payload = isinstance(val, dict) and val.get('k') == 'payload' and val.get('variant') == 'Some'
         want_opt = next((o for o, p in OVERRIDES.items() if p == path), None)
         key = f'override:{path}'
@@ -70,10 +95,10 @@ def f1(ctx, rep):
         if extra:
             rep.fail('F1', key, f"config.{path} is overridden only under an additional condition (`{vt.show(extra[0].get('c'))[:80]}`): the command-line value is dropped when that condition is false (e.g. when writing a config with -g), so CLI and generated file disagree", site)
             continue
-        rep.check(ok_guard and src_opt == want_opt and from_payload, 'F1', key, f'config.{path} = --{want_opt} when given', f"config.{path} is assigned `{vt.show(a['value'])[:60]}` under `{vt.show(frames[0].get('c'))[:80] if frames else 'no guard'}` — expected the value of options.{want_opt} exactly when it is Some", site)
+        rep.check(ok_guard and src_opt == want_opt and from_payload, 'F1', key, f'config.{path} = --{want_opt} when given', f"config.{path} is assigned `{vt.show(value)[:60]}` under `{vt.show(frames[0].get('c'))[:80] if frames else 'no guard'}` — expected the value of options.{want_opt} exactly when it is Some", site)
     for opt, path in OVERRIDES.items():
         rep.check(path in seen, 'F1', f'override-present:{path}', f'--{opt} wired', f'override_configuration never applies --{opt.replace("_", "-")} to config.{path}: the command-line value is ignored', {'file': oc['file'], 'line': oc['line']})
-    t = [a for a in oc['assigns'] if a.get('text', '').replace(' ', '') == f'{cfg}.target_os']
+    t = [w for w in config_writes(oc, cfg) if w[0] == 'target_os']
     rep.check(len(t) == 1, 'F1', 'target_os', 'target_os set from the option', 'config.target_os is not set exactly once', {'file': oc['file'], 'line': oc['line']})
     # F2 nothing else writes Config
     n = 0
@@ -91,7 +116,7 @@ def f1(ctx, rep):
     if n == 0:
         rep.ok('F2', 'no-other-config-writes', 'Config is only written by override_configuration')
     # call order in generate_types: load_config → override_configuration → language()
-    gt = ctx.fn('generate_types', file='cli/src/main.rs')
+    gt = ctx.fnx('generate_types', file='cli/src/main.rs')
     order = [c['f'] for c in gt['calls'] if c.get('f') in ('config::load_config', 'load_config', 'override_configuration', 'language')]
     rep.check(order[:3] == ['config::load_config', 'override_configuration', 'language'] or order[:3] == ['load_config', 'override_configuration', 'language'], 'F1', 'pipeline-order', ' → '.join(order), f'generate_types does not run load_config → override_configuration → language (found {order})', {'file': gt['file'], 'line': gt['line']})
     lang = [c for c in gt['calls'] if c.get('f') == 'language']
@@ -102,7 +127,7 @@ def f1(ctx, rep):
 
 
 def f4(ctx, rep):
-    sc = ctx.fn('store_config', file='cli/src/config.rs')
+    sc = ctx.fnx('store_config', file='cli/src/config.rs')
     site = {'file': sc['file'], 'line': sc['line']}
     names = [c['f'] for c in sc['calls'] if isinstance(c.get('recv'), dict) and 'OpenOptions' in vt.show(c['recv']) or c.get('f') == 'OpenOptions::new']
     chain = [c['f'] for c in sc['calls'] if c.get('f') in ('write', 'create_new', 'create', 'truncate', 'append', 'open')]
@@ -112,7 +137,7 @@ def f4(ctx, rep):
     rep.check(ok, 'F4', 'store_config:create_new', 'OpenOptions::new().write(true).create_new(true)', f'store_config opens the file with {chain}: an existing configuration file can be overwritten', site)
     other = [c for c in sc['calls'] if c.get('f') in ('fs::write', 'std::fs::write', 'File::create', 'fs::remove_file', 'fs::rename')]
     rep.check(not other, 'F4', 'store_config:no-other-write', 'no other file API', f"store_config also uses {[c['f'] for c in other]}", site)
-    m = ctx.fn('main', file='cli/src/main.rs')
+    m = ctx.fnx('main', file='cli/src/main.rs')
     stc = [c for c in m['calls'] if c.get('f') in ('config::store_config', 'store_config')]
     ok = bool(stc) and any(fr.get('k') == 'if' and 'generate_config' in vt.show(fr['c']) and not fr.get('neg') for fr in stc[0]['guard'])
     rep.check(ok, 'F4', 'main:-g-stores', '-g ⇒ store_config', 'main does not route --generate-config to store_config', {'file': m['file'], 'line': m['line']})
@@ -138,8 +163,8 @@ def f5(ctx, rep):
                     asym = re.search(r'skip_serializing|skip_deserializing|rename\(|serialize_with|deserialize_with|flatten|alias|with=', a2)
                     sym_ok = a2 in ('serde(skip)', 'serde(default)')
                     rep.check(not asym and (sym_ok or 'rename=' in a2), 'F5', f"{s['name']}.{fld['name']}:symmetric-attr", a2, f"{s['name']}.{fld['name']} carries `{a}`: written and read form of the configuration differ", site)
-    lc = ctx.fn('load_config', file='cli/src/config.rs')
-    sc = ctx.fn('store_config', file='cli/src/config.rs')
+    lc = ctx.fnx('load_config', file='cli/src/config.rs')
+    sc = ctx.fnx('store_config', file='cli/src/config.rs')
     rep.check(any(c.get('f') == 'toml::from_str' for c in lc['calls']), 'F5', 'load:toml', 'toml::from_str::<Config>', 'load_config does not parse the file as TOML into Config', {'file': lc['file'], 'line': lc['line']})
     rep.check(any(c.get('f') in ('toml::to_string_pretty', 'toml::to_string') for c in sc['calls']), 'F5', 'store:toml', 'toml::to_string_pretty(config)', 'store_config does not serialise Config as TOML', {'file': sc['file'], 'line': sc['line']})
     rep.check('Config::default' in vt.show(lc['tail']) or any('Config::default' in vt.show(r.get('v')) for r in lc['returns']) or any(c.get('f') == 'Config::default' for c in lc['calls']), 'F5', 'load:default-when-absent', 'no file ⇒ Config::default()', 'load_config does not fall back to Config::default() when no file is found', {'file': lc['file'], 'line': lc['line']})
